@@ -140,6 +140,11 @@ def main():
             if body != ref[1]: bad.append({'stream': repr(wire[:70]), 'cuts': cuts[:5], 'problem': 'body %r..., reference %r...' % (body[:30], ref[1][:30])}); continue
             if notified != wire[:ref[2]]: bad.append({'stream': repr(wire[:70]), 'cuts': cuts[:5], 'problem': 'listeners were told %d bytes, the response occupies %d bytes of the stream' % (len(notified), ref[2])}); continue
             if consumed > ref[2] and not closed: bad.append({'stream': repr(wire[:70]), 'cuts': cuts[:5], 'problem': 'surplus consumed but connection kept open'})
+            # statement: "surplus bytes after a length-delimited body are discarded with the connection".  Surplus that has ARRIVED TOGETHER WITH the end of the
+            # body (same segment) can be seen by the reader; if the connection stays open with those bytes unread, they become the "response" of the next exchange.
+            # (Surplus arriving in a later segment cannot be known when the body completes: outside the clause.)
+            if b'SURPLUS' in wire and len(wire) > ref[2] and ref[2] not in cuts and ref[1] and not closed and consumed <= ref[2]:
+                bad.append({'stream': repr(wire[:70]), 'cuts': cuts[:5], 'problem': 'surplus bytes sent with the tail of a length-delimited body were left unread in a connection that stays open (they will be parsed as the next response)'})
         # truncations of well-formed framed streams must be errors
         if ref[0] == 'ok' and (b'Content-Length' in wire or b'chunked' in wire.lower()) and ref[1]:
             for cut in range(len(wire) - len(ref[1]) // 2, ref[2]):
